@@ -18,7 +18,7 @@ def gen_plant_case(rng, idx, kind=None, n=None):
     a user would give ("Genset 1" on every switchboard)."""
     case = _gen_plant_case(rng, idx, kind, n)
     if rng.random() < 0.3:
-        plants.relabel(case["spec"])
+        plants.relabel(case["spec"], style=str(rng.choice(["per-kind", "per-category"])))
     return case
 
 
